@@ -179,6 +179,9 @@ func histBFS(c *core.Ctx, sb *sandbox, res *core.ShardResult, wl *core.WLog) {
 	shape := histShapes[c.Shard%len(histShapes)]
 	maxTrans := c.Q(35000, 2000000)
 	values := []string{"v1", ""} // an edit, and a file that exists but is empty
+	if c.Thorough() {
+		values = []string{"v1", "v2", ""}
+	}
 	edits := editOps(shape, values)
 	runs := runOps(shape, true)
 	nodes := []bfsNode{{st: newState(), parent: -1}}
@@ -489,7 +492,7 @@ func histRandom(c *core.Ctx, sb *sandbox, res *core.ShardResult, wl *core.WLog) 
 // Orchestrator
 
 var histRules = map[string]string{
-	"C01": "states = (content of every project file, bytes of .spok/cache.json or its absence, model of each task's last success); breadth-first search from the empty project over {write 'v1' / the empty content to each file, delete it, rm -rf .spok, rm .spok/cache.json, chmod +x, run every non-empty task subset plain/forced, also with the first command of each closure task failing} on 17 spokfile shapes (a variable whose value differs on every invocation interpolated into the commands, two files with the same base name, a dependency rewritten by the task itself, a task named default run without task names through the binary, a dependency that may be a symbolic link, task names differing only in case, literal, glob, recursive glob, both, no-file task, shared file, task dependency, same glob with different literals, a file named twice, a generated input copied by a dependency, chain of three), each (state, run-op) executed once by the real code in-process (to a fixpoint unless the cap is reported), plus seeded random histories in a larger universe (3 values and the empty content, 7 files incl. hidden and nested, random task shapes, in a third of the histories the spokfile itself is edited so that a task declares one dependency more or less), every 20th also through the race-built binary. evaluations = spok invocations judged; non-trivial = distinct (state, run-op) transitions in which a skip was observed, resp. random histories with a skip after an edit and a re-run",
+	"C01": "states = (content of every project file, bytes of .spok/cache.json or its absence, model of each task's last success); breadth-first search from the empty project over {write 'v1' / (thorough: 'v2') / the empty content to each file, delete it, rm -rf .spok, rm .spok/cache.json, chmod +x, run every non-empty task subset plain/forced, also with the first command of each closure task failing} on 17 spokfile shapes (a variable whose value differs on every invocation interpolated into the commands, two files with the same base name, a dependency rewritten by the task itself, a task named default run without task names through the binary, a dependency that may be a symbolic link, task names differing only in case, literal, glob, recursive glob, both, no-file task, shared file, task dependency, same glob with different literals, a file named twice, a generated input copied by a dependency, chain of three), each (state, run-op) executed once by the real code in-process (to a fixpoint unless the cap is reported), plus seeded random histories in a larger universe (3 values and the empty content, 7 files incl. hidden and nested, random task shapes, in a third of the histories the spokfile itself is edited so that a task declares one dependency more or less), every 20th also through the race-built binary. evaluations = spok invocations judged; non-trivial = distinct (state, run-op) transitions in which a skip was observed, resp. random histories with a skip after an edit and a re-run",
 	"C02": "same search and histories as C01, judged in the converse direction (crash-free only); non-trivial = distinct transitions/histories in which the model demanded a skip inside a multi-task invocation",
 	"C14": "same search and histories as C01 (any run may carry --force); non-trivial = distinct forced transitions that hit an up-to-date task, resp. random histories with such a forced run followed by an unforced run",
 }
